@@ -495,12 +495,15 @@ func (t *Tree) checkRecursion(n *node, ruleReached []bool) bool {
 		ruleReached[id] = false
 		return consumes
 	case TypeAlternate:
+		// every alternative starts at the same position, so every one of them
+		// has to be checked; the choice consumes only if all of them do
+		consumes := true
 		for element := range n.Iterator() {
 			if !t.checkRecursion(element, ruleReached) {
-				return false
+				consumes = false
 			}
 		}
-		return true
+		return consumes
 	case TypeSequence:
 		return slices.ContainsFunc(slices.Collect(n.Iterator()), func(n *node) bool {
 			return t.checkRecursion(n, ruleReached)
@@ -509,6 +512,11 @@ func (t *Tree) checkRecursion(n *node, ruleReached []bool) bool {
 		return t.checkRecursion(t.Rules[n.String()], ruleReached)
 	case TypePlus, TypePush, TypeImplicitPush:
 		return t.checkRecursion(n.Front(), ruleReached)
+	case TypeQuery, TypeStar, TypePeekFor, TypePeekNot:
+		// the operand is entered without anything consumed, but the
+		// expression as a whole may succeed without consuming
+		t.checkRecursion(n.Front(), ruleReached)
+		return false
 	case TypeCharacter, TypeString:
 		return len(n.String()) > 0
 	case TypeDot, TypeRange:
